@@ -14,6 +14,9 @@ unsigned char* iglue_mem_data(void* inst);
 unsigned iglue_mem_pages(void* inst);
 void* iglue_mem_object(void* inst);
 void* iglue_tab_object(void* inst);
+int iglue_func_export_count(void* inst);
+const char* iglue_func_export_name(void* inst, int k);
+unsigned iglue_func_export_call_i(void* inst, int k);
 void* iglue_export_memory(void* inst);
 void iglue_free_instance(void* inst);
 void iglue_env_free(InstEnv* e);
